@@ -3,6 +3,7 @@ package io
 import (
 	"errors"
 	"io"
+	"io/fs"
 )
 
 var (
@@ -15,9 +16,9 @@ var (
 // The main difference between io.SectionReader and offsetReadSeeker is that
 // NewOffsetReadSeeker does not require the user to know the number of readable bytes.
 //
-// It also partially implements Seek, where the implementation panics if io.SeekEnd is passed.
-// This is because, offsetReadSeeker does not know the end of the file therefore cannot seek relative
-// to it.
+// Seek relative to io.SeekEnd works when the underlying io.ReaderAt reports its size (a Size or Stat
+// method, as bytes.Reader, io.SectionReader and os.File have); otherwise it returns an error, because
+// offsetReadSeeker does not know the end of the file and cannot seek relative to it.
 type offsetReadSeeker struct {
 	r    io.ReaderAt
 	base int64
@@ -34,7 +35,7 @@ type ReadSeekerAt interface {
 
 // NewOffsetReadSeeker returns an ReadSeekerAt that reads from r
 // starting offset offset off and stops with io.EOF when r reaches its end.
-// The Seek function will panic if whence io.SeekEnd is passed.
+// The Seek function returns an error if whence io.SeekEnd is passed and the size of r is not known.
 func NewOffsetReadSeeker(r io.ReaderAt, off int64) (ReadSeekerAt, error) {
 	if or, ok := r.(*offsetReadSeeker); ok {
 		oldBase := or.base
@@ -111,9 +112,35 @@ func (o *offsetReadSeeker) Seek(offset int64, whence int) (int64, error) {
 			o.off = off
 		}
 	case io.SeekEnd:
-		panic("unsupported whence: SeekEnd")
+		size, err := o.sourceSize()
+		if err != nil {
+			return 0, err
+		}
+		off := size + offset
+		if offset > 0 && off < size {
+			return 0, errors.New("Seek offset overflow")
+		}
+		if off < o.base {
+			return 0, errors.New("Seek offset underflow")
+		}
+		o.off = off
 	}
 	return o.Position(), nil
+}
+
+// sourceSize returns the size of the underlying reader when it has a way to tell.
+func (o *offsetReadSeeker) sourceSize() (int64, error) {
+	switch r := o.r.(type) {
+	case interface{ Size() int64 }:
+		return r.Size(), nil
+	case interface{ Stat() (fs.FileInfo, error) }:
+		fi, err := r.Stat()
+		if err != nil {
+			return 0, err
+		}
+		return fi.Size(), nil
+	}
+	return 0, errors.New("unsupported whence: io.SeekEnd on a reader of unknown size")
 }
 
 // Position returns the current position of this reader relative to the initial offset.
